@@ -63,7 +63,7 @@ partial def bfixLoop (h : IO.FS.Stream) (out : IO.FS.Stream) : IO Unit := do
     let old := (decToks ts).map (·.tok)
     match Base.fixByOwner owner (Base.Dec.kv ps) (Base.Dec.kv ac) old with
     | none => out.putStrLn "unmodelled"
-    | some (.error e) => out.putStrLn s!"err {repr e}"
+    | some (.error e) => out.putStrLn s!"err {Base.errName e}"
     | some (.ok new) => out.putStrLn ("ok " ++ " ".intercalate (new.map fun t => s!"{t.cls}:{encStr t.val}"))
   | _ => out.putStrLn "error bad line"
   bfixLoop h out
@@ -83,5 +83,7 @@ def main (args : List String) : IO UInt32 := do
   | ["retok"] => Lex.retokMain stdin stdout; return 0
   | ["ct"] => Vsgm.CT.ctMain stdin stdout; stdout.flush; return 0
   | ["c05"] => Vsgm.Classify.classifyMain stdin stdout; stdout.flush; return 0
+  | ["ws"] => Vsgm.Base.wsMain stdin stdout; return 0
+  | ["post"] => Vsgm.Post.postMain stdin stdout; return 0
   | ["wb"] => Vsgm.WB.wbMain stdin stdout; return 0
   | _ => IO.eprintln "usage: driver <mode>"; return 2
